@@ -72,7 +72,7 @@ def state_case(rng):
     for bi, (li, lo) in enumerate(zip(ins, outs)):
         regs = []
         tag = "s" if (bi == 1 and outs[0] == outs[1]) else ""
-        for j in range(rng.choice([1, 1, 2, 3, 5, 9, 14])):
+        for j in range(rng.choice([0, 1, 1, 2, 3, 5, 9, 14])):          # 0: a bank without registers
             w = rng.choice([1, 4, 8, 13, 32, 64, 65, 100, 128])
             name = tag + rng.choice(["r%d" % j, "reg%d" % j, "n" + "a" * rng.randint(1, 12) + str(j), "v_" + "x" * rng.randint(20, 68) + str(j), "a_b_%d" % j])
             regs.append((name, w))
